@@ -318,6 +318,17 @@ impl Replayer {
                     }
                 }
                 "acwrite" => write_ac(&st["acfile"], st["stamp"].as_u64().unwrap_or(2)),
+                "accorrupt" => {
+                    // the file is no longer parsable (an interrupted save of the editor): a proper prefix of a valid document
+                    let stamp = st["stamp"].as_u64().unwrap_or(2);
+                    let docs: [&[u8]; 4] = [b"{\"as\":\"asa\",\"onno\":\"on", b"", b"[\"as\"]", b"{\"as\":1}"];
+                    std::fs::write(&acpath, docs[(self.rep.behaviours % 4) as usize]).unwrap();
+                    let f = std::fs::OpenOptions::new().write(true).open(&acpath).unwrap();
+                    f.set_modified(std::time::UNIX_EPOCH + std::time::Duration::from_secs(1_700_000_000 + stamp * 10)).unwrap();
+                }
+                "acremove" => {
+                    let _ = std::fs::remove_file(&acpath);
+                }
                 "update" => {
                     let cfg: Cfg = serde_json::from_value(st["cfg"].clone()).unwrap_or_default();
                     let o = used.as_mut().unwrap().update(&cfg);
